@@ -91,7 +91,9 @@ Step(e) ==
          LET c == InitOf(kind)
              whys == IF e.panic THEN <<"clear-panicked">> ELSE ObsWhys(e, c)
          IN  IF whys = <<>>
-             THEN ic' = c /\ n' = 0 /\ cleared' = TRUE /\ UNCHANGED <<kind, skip, errs, copied>>
+             THEN \* clear keeps the allocations (C18): reported, without ending the run
+                  /\ errs' = IF e.cap_after < e.cap_before THEN Err(e, "capacity-shrank-on-clear") ELSE errs
+                  /\ ic' = c /\ n' = 0 /\ cleared' = TRUE /\ UNCHANGED <<kind, skip, copied>>
              ELSE errs' = ErrAll(e, whys, errs) /\ skip' = TRUE /\ UNCHANGED <<kind, ic, n, cleared, copied>>
     [] e.ev \in {"copy", "reserve"} ->
          \* the object under test was replaced by its clone / clone_from into a dirty target / serde copy, or
